@@ -72,11 +72,80 @@ def _callables_of(container):
     return out
 
 
+ARRAY_KIND = {None: 'c', 'GLib.Array': 'array', 'GLib.PtrArray': 'ptr_array', 'GLib.ByteArray': 'byte_array'}
+CONTAINER_TAG = {'GLib.List': 'glist', 'GLib.SList': 'gslist', 'GLib.HashTable': 'ghash', 'GLib.Error': 'error'}
+BASIC_TAG = {'none': 'void', 'gpointer': 'void', 'gboolean': 'boolean', 'gint8': 'int8', 'guint8': 'uint8', 'gint16': 'int16',
+             'guint16': 'uint16', 'gint32': 'int32', 'guint32': 'uint32', 'gint64': 'int64', 'guint64': 'uint64',
+             'gfloat': 'float', 'gdouble': 'double', 'GType': 'gtype', 'utf8': 'utf8', 'filename': 'filename',
+             'gunichar': 'unichar', 'gchar': 'int8', 'guchar': 'uint8', 'gshort': 'int16', 'gushort': 'uint16',
+             'gint': 'int32', 'guint': 'uint32', 'glong': 'int64', 'gulong': 'uint64', 'gssize': 'int64', 'gsize': 'uint64',
+             'gintptr': 'int64', 'guintptr': 'uint64'}
+
+
+def _expect_type(holder, t, where):
+    """The type shape the GIR states for a value (child <type>/<array> of `holder`) against the decoded type `t`:
+    container kind, array kind and array flags (zero-terminated, length index, fixed size), basic tags, recursively for
+    element types that are written out. Names that are not basic (interfaces, aliases) only have to be non-containers."""
+    if holder is None or t is None:
+        return 0
+    ar = holder.find(GI + 'array')
+    ty = holder.find(GI + 'type')
+    n = 0
+    if ar is not None:
+        if t['tag'] != 'array':
+            raise Violation('type-shape', '%s: GIR states an array, typelib has %s' % (where, t['tag']))
+        kind = ARRAY_KIND.get(ar.get('name'))
+        if kind is None:
+            return 0
+        if t['array_type_name'] != kind:
+            raise Violation('array-kind', '%s: GIR %s typelib %s' % (where, kind, t['array_type_name']))
+        n += 1
+        if kind == 'c':
+            ln, fs, zt = ar.get('length'), ar.get('fixed-size'), ar.get('zero-terminated')
+            ezt = (zt == '1') if zt is not None else not (ln is not None or fs is not None)
+            if bool(t['zero_terminated']) != ezt:
+                raise Violation('array-flag:zero-terminated', '%s: GIR zero-terminated=%r length=%r fixed-size=%r, typelib says %r'
+                                % (where, zt, ln, fs, t['zero_terminated']))
+            if ln is not None and t['length'] != int(ln):
+                raise Violation('array-flag:length', '%s: GIR length=%s typelib %r' % (where, ln, t['length']))
+            if ln is None and t['length'] is not None:
+                raise Violation('array-flag:length', '%s: GIR has no length, typelib %r' % (where, t['length']))
+            if ln is None and (None if fs is None else int(fs)) != t['size']:
+                raise Violation('array-flag:fixed-size', '%s: GIR fixed-size=%r typelib %r' % (where, fs, t['size']))
+            n += 3
+        return n + _expect_type(ar, t['element_type'], where + ' element')
+    if ty is None:
+        return 0
+    name = ty.get('name')
+    if name in CONTAINER_TAG:
+        if t['tag'] != CONTAINER_TAG[name]:
+            raise Violation('type-shape', '%s: GIR %s typelib %s' % (where, name, t['tag']))
+        n += 1
+        kids = [k for k in ty if k.tag in (GI + 'type', GI + 'array')]
+        pts = t.get('param_types') or []
+        if kids and len(kids) == len(pts):
+            for i, k in enumerate(kids):
+                wrap = ET.Element('w')
+                wrap.append(k)
+                n += _expect_type(wrap, pts[i], '%s element %d' % (where, i))
+        return n
+    if name in BASIC_TAG:
+        if t['tag'] != BASIC_TAG[name]:
+            raise Violation('type-tag', '%s: GIR %s typelib %s' % (where, name, t['tag']))
+        return n + 1
+    if t['tag'] in ('array', 'glist', 'gslist', 'ghash', 'error') and name is not None and '.' not in name:
+        # a local name (record, class, enum, callback, alias of one of them) never denotes a container by itself;
+        # aliases of containers do not exist in GIR 1.2 (an alias target is a <type name>, which may be GLib.List - skip those)
+        return n
+    return n
+
+
 def _expect_callable(el, where, blob, sig):
     """Compare a GIR callable with a decoded FunctionBlob/CallbackBlob/... signature."""
     ps = el.find(GI + 'parameters')
     params = [] if ps is None else ps.findall(GI + 'parameter')
     args = sig['arguments']
+    extra = 0
     if len(args) != len(params):
         raise Violation('argument-count', '%s: GIR has %d parameters, typelib %d' % (where, len(params), len(args)))
     if 'throws' in blob and bool(blob['throws'] or sig.get('throws')) != (el.get('throws') == '1'):
@@ -105,6 +174,7 @@ def _expect_callable(el, where, blob, sig):
         for attr in ('closure', 'destroy'):
             if p.get(attr) is not None and a[attr] != int(p.get(attr)):
                 raise Violation('argument-' + attr, '%s: GIR %s typelib %s' % (w, p.get(attr), a[attr]))
+        extra += _expect_type(p, a['arg_type'], w)
     rv = el.find(GI + 'return-value')
     if rv is not None:
         tr = rv.get('transfer-ownership') or 'none'
@@ -114,7 +184,8 @@ def _expect_callable(el, where, blob, sig):
             raise Violation('return-nullable', '%s: GIR nullable=%r typelib %r' % (where, rv.get('nullable'), sig['may_return_null']))
         if bool(sig['skip_return']) != (rv.get('skip') == '1'):
             raise Violation('return-skip', '%s: GIR skip=%r typelib %r' % (where, rv.get('skip'), sig['skip_return']))
-    return len(params) + 1
+        extra += _expect_type(rv, sig['return_type'], where + ' return value')
+    return len(params) + 1 + extra
 
 
 def compare(gir_bytes, tl):
@@ -167,6 +238,15 @@ def compare(gir_bytes, tl):
                 n += _expect_callable(m, '%s.%s' % (nm, mn), tm[mn], tm[mn]['signature'])
                 if bool(tm[mn]['constructor']) != (m.tag == GI + 'constructor'):
                     raise Violation('constructor-flag', '%s.%s' % (nm, mn))
+        if k in ('struct', 'struct-or-boxed', 'union', 'union-or-boxed', 'object') and 'fields' in blob:
+            gf = [f for f in el.findall(GI + 'field') if not _off(f)]
+            tf = dict((f['name'], f) for f in blob['fields'])
+            for f in gf:
+                t = tf.get(f.get('name'))
+                if t is None:
+                    raise Violation('field-missing', '%s.%s is introspectable in the GIR, typelib fields: %r' % (nm, f.get('name'), sorted(tf)))
+                if f.find(GI + 'callback') is None and t.get('type') is not None:
+                    n += _expect_type(f, t['type'], '%s.%s field' % (nm, f.get('name')))
         if k in ('object', 'interface'):
             gp = dict((p.get('name'), p) for p in el.findall(GI + 'property') if not _off(p))
             tp = dict((p['name'], p) for p in blob.get('properties', []))
@@ -180,6 +260,8 @@ def compare(gir_bytes, tl):
                 for key, v in exp.items():
                     if bool(t[key]) != v:
                         raise Violation('property-flag:' + key, '%s:%s GIR %r typelib %r' % (nm, pn, v, t[key]))
+                if t.get('type') is not None:
+                    n += _expect_type(p, t['type'], '%s:%s property' % (nm, pn))
             gs = dict((s.get('name'), s) for s in el.findall(GLIB + 'signal') if not _off(s))
             ts = dict((s['name'], s) for s in blob.get('signals', []))
             if set(gs) != set(ts):
